@@ -84,11 +84,15 @@ def parse_url(url: str) -> ParsedURL:
     # Normalize path (default to '/')
     path = parsed.path if parsed.path else "/"
 
+    # urlparse strips the brackets of IP literals from .hostname; restore them
+    # so that the normalized URL can itself be parsed again
+    host = f"[{parsed.hostname}]" if "[" in parsed.netloc else parsed.hostname
+
     # Construct normalized URL
     normalized = urlunparse(
         (
             "gemini",  # Always use 'gemini' scheme
-            f"{parsed.hostname}:{port}" if port != DEFAULT_PORT else parsed.hostname,
+            f"{host}:{port}" if port != DEFAULT_PORT else host,
             path,
             parsed.params,
             parsed.query,
